@@ -354,11 +354,15 @@ class CallTimeout(Exception):
 
 
 CALL_LIMIT = float(os.environ.get('VERIF_CALL_LIMIT', '120'))
-_timer = {'armed': False}
+# After the first call that ran into the limit the process has a failure to report; the calls that follow (more cases of
+# the same bucket, shrinking) get a fortieth of the limit, so that code which loops costs minutes, not hours.
+_timer = {'armed': False, 'limit': CALL_LIMIT}
 
 
 def _on_alarm(signum, frame):
-    raise CallTimeout(f'no result within {CALL_LIMIT:g} s')
+    limit = _timer['limit']
+    _timer['limit'] = min(limit, max(CALL_LIMIT / 40, 1))
+    raise CallTimeout(f'no result within {limit:g} s')
 
 
 def arm_call_limit():
@@ -369,7 +373,7 @@ def arm_call_limit():
     if _timer['armed'] or CALL_LIMIT <= 0 or threading.current_thread() is not threading.main_thread():
         return False
     signal.signal(signal.SIGALRM, _on_alarm)
-    signal.setitimer(signal.ITIMER_REAL, CALL_LIMIT)
+    signal.setitimer(signal.ITIMER_REAL, _timer['limit'])
     _timer['armed'] = True
     return True
 
@@ -404,7 +408,17 @@ def innermost_hpl_frame(exc):
     return where or 'outside-hpl'
 
 
+def outermost_hpl_frame(exc):
+    for fr in traceback.extract_tb(exc.__traceback__):
+        if '/hpl/' in fr.filename.replace('\\', '/'):
+            return f'{os.path.basename(fr.filename)}:{fr.name}'
+    return 'outside-hpl'
+
+
 def exc_sig(exc):
+    if isinstance(exc, CallTimeout):
+        # the alarm interrupts a loop wherever it happens to be: the entry function names the bucket, not the innermost frame
+        return f'CallTimeout@{outermost_hpl_frame(exc)}'
     return f'{type(exc).__name__}@{innermost_hpl_frame(exc)}'
 
 
